@@ -256,8 +256,9 @@ pub const TREE_VALUES: &[&str] = &[
     "", "a", "b", "x", "foo", "bar", "foo bar", "bar foo baz", "a-b", "en", "en-US", "EN", "Foo",
     "x y", " x ", "foobar", "a\tb", "x\ny",
 ];
-pub const SVG_NAMES: &[&str] = &["g", "path", "circle", "rect", "text", "a", "use", "defs"];
-pub const MATHML_NAMES: &[&str] = &["mrow", "mfrac", "msup", "semantics"];
+// incl. names that are void in HTML only (they stay ordinary elements in foreign content)
+pub const SVG_NAMES: &[&str] = &["g", "path", "circle", "rect", "text", "a", "use", "defs", "link", "input", "param", "source"];
+pub const MATHML_NAMES: &[&str] = &["mrow", "mfrac", "msup", "semantics", "link", "wbr", "area"];
 
 #[derive(Clone, Debug)]
 pub struct TreeOpts {
